@@ -248,10 +248,16 @@ def gen_probe_form(rng, langs, p_ref=0.35, plain=False, only=None, p_instance=Tr
                "label" if not langs else f"label::{langs[0]}": "S"}
         survey.append(sel)
         extra_cols = rng.choice([[], ["extra"], ["extra", "other_col"]]) if want("choice_extra") else []
-        for ci in range(rng.randint(1, 3)):
+        n_choices = rng.randint(1, 3)
+        # a choice without any label (accepted with a warning): itext ids of a list are positional, so the
+        # labels AFTER an unlabelled choice must still be found at their own position (seeded C06-12)
+        unlabelled = rng.randrange(n_choices - 1) if n_choices > 1 and want("choice_label") and rng.random() < 0.3 else None
+        for ci in range(n_choices):
             c = {"list_name": "l", "name": f"c{ci}"}
             choices.append(c)
             where = {"list": "l", "index": ci, "name": f"c{ci}"}
+            if ci == unlabelled:
+                continue
             if want("choice_label"):
                 lang_cols("choices", ci, c, "label", "choice_label", where, True)
             else:
